@@ -1,4 +1,4 @@
-\* Measured: 9 configurations (<= 6 units), validator sessions of <= 3 deliveries: 177 213 distinct / 1 539 083 generated states, depth 4, 15-50 s on 6 workers.
+\* Measured: 9 configurations (<= 6 units), validator sessions of <= 2 deliveries (3 in the thorough cfg); see the log line of a run for the current counts.
 \* the repaired design: every property holds
 CONSTANTS
   Configs <- SmallConfigs
@@ -9,7 +9,7 @@ CONSTANTS
   FixUnpad = TRUE
   FixProto = TRUE
   FixShardLens = TRUE
-  MaxSession = 3
+  MaxSession = 2
   RecordOnlyAccepted = TRUE
 INIT Init
 NEXT Next
